@@ -29,3 +29,12 @@ package tchannel
 // keeps the connection, and with it the channel, from ever reaching closed.
 //@ func (r *Relayer) handleCallReq(f *lazyCallReq) (shouldRelease bool, err error)
 //@   property C07
+
+// A call request that meets a connection leaving Active between the two
+// admission checks is refused -- and the refusal is queued BEFORE the call's
+// exchange is released: releasing the only exchange of a draining connection
+// closes it, and the refusal would be dropped after all.
+//@ func (c *Connection) handleCallReq(frame *Frame) (release bool)
+//@   label refusal-is-queued-before-the-exchange-is-released
+//@   atcall shutdown errAttempts(c) == old(errAttempts(c)) + 1
+//@   property C07
